@@ -46,6 +46,7 @@ def build(tier, rnd):
         out.append((k, s, ["ansi"]))
     out += same_alias_cases(45 if tier == "quick" else 600, common.env.seed() * 31 + 7)
     out += capture_cases(24 if tier == "quick" else 300, common.env.seed() * 53 + 3)
+    out += dialect_form_cases(40 if tier == "quick" else 400, common.env.seed() * 59 + 11)
     # CTEs that reference themselves, with and without the RECURSIVE keyword
     for key, st, ds in c01.recursive_cte_cases(10 if tier == "quick" else 80, common.env.seed() * 41 + 9):
         if key[1] % 2 and st.kind in KINDS:
@@ -53,6 +54,39 @@ def build(tier, rnd):
             ds = ["ansi", "postgres", "mysql", "sqlite"][: 2 + key[1] % 3]
         if st.kind in KINDS:
             out.append((key, st, ds))
+    return out
+
+
+# expression forms of single dialects inside / around function calls (struct fields, subscripts, named arguments, AT TIME ZONE, INTERVAL,
+# ORDER BY inside an aggregate, :: casts, IF / IIF): the item depends on exactly the columns of its operands, however they are bracketed
+DIALECT_FORMS = {
+    "bigquery": ["to_json_string(struct({0} as x, {1} as y))", "ifnull({0}[safe_offset({1})], {2})", "date_add({0}, interval ({1}) day)"],
+    "hive": ["coalesce({0}[lower({1})], {2})"],
+    "sparksql": ["coalesce({0}[lower({1})], {2})", "concat({0}[({1})], {2})"],
+    "postgres": ["make_interval(days => ({0} - {1}))", "coalesce({0}[({1})], {2})", "string_agg({0}, ',' order by abs({1}))", "upper({0} :: text || ({1}))"],
+    "snowflake": ["coalesce({0}[({1})], {2})", "iff(({0} > 1), {1}, ({2}))"],
+    "trino": ["coalesce({0}[({1})], {2})"],
+    "ansi": ["date_trunc('day', {0} at time zone ({1}))", "coalesce({0}, abs(({1})), {2})"],
+    "tsql": ["isnull(({0} + {1}), {2})", "iif({0} > ({1}), {2}, 0)"],
+    "mysql": ["if({0} > ({1}), {2}, 0)", "concat_ws(',', {0}, ({1}))"],
+}
+
+
+def dialect_form_cases(n, seed):
+    from vlib.sqlgen import Base, E, Group, Item, Select, Stmt, col
+    rnd = random.Random(seed)
+    forms = [(d, t) for d, ts in sorted(DIALECT_FORMS.items()) for t in ts]
+    out = []
+    for i in range(n):
+        d, t = forms[i % len(forms)]
+        A, B = Base(f"tb_fa{i}", rnd.choice([None, "sa"]), f"a{i}"), Base(f"tb_fb{i}", None, f"b{i}")
+        ops = [col(f"c_{j + 1}", rnd.choice([A, B]).key()) for j in range(3)]
+        if i // len(forms) % 2:
+            j = rnd.randrange(3)
+            ops[j] = E("func", ops[j], fname=rnd.choice(["abs", "upper"]))  # one operand is itself a call
+        ops = ops[: len({x for x in ("{0}", "{1}", "{2}") if x in t})]
+        q = Select([Item(E("tmpl", *ops, fname=t), "o_1"), Item(col("c_4", A.key()), "o_2")], [Group(A, [("inner", B, "on")])])
+        out.append((("dialect_form", i), Stmt(rnd.choice(["insert", "ctas"]), Base(f"tb_ft{i}"), q), [d]))
     return out
 
 
